@@ -339,6 +339,10 @@ func (ci *crdIpam) ConfigurePool(floatIPs []*FloatingIPPool) error {
 			len(ci.unallocatedFIPs), len(ci.allocatedFIPs))
 	}()
 	sort.Sort(FloatingIPSlice(floatIPs))
+	// hold the lock while listing: an allocation or release that commits between the list and the swap of
+	// the tables below would otherwise be lost from (or resurrected in) the cache
+	ci.cacheLock.Lock()
+	defer ci.cacheLock.Unlock()
 	ips, err := ci.listFloatingIPs()
 	if err != nil {
 		glog.Errorf("fail to list floatIP %v", err)
@@ -376,8 +380,6 @@ func (ci *crdIpam) ConfigurePool(floatIPs []*FloatingIPPool) error {
 			deletingIPs = append(deletingIPs, ip.Name)
 		}
 	}
-	ci.cacheLock.Lock()
-	defer ci.cacheLock.Unlock()
 	ci.FloatingIPs = floatIPs
 	ci.allocatedFIPs = tmpCacheAllocated
 	if len(deletingIPs) > 0 {
